@@ -217,6 +217,8 @@ func main() {
 		cmdStoreGen(os.Args[2:])
 	case "store-rand":
 		cmdStoreRand(os.Args[2:])
+	case "conc":
+		cmdConc(os.Args[2:])
 	case "store-replay":
 		cmdStoreReplay(os.Args[2:])
 	default:
